@@ -2,7 +2,9 @@
    S: "err-io" iff the model says the session ends with a call returning Err(Io) (all earlier calls
       Ok, no panic); "finished" iff into_inner is Ok and the sink holds prefill ++ the in-memory
       bytes and was flushed.
-   M: index of the failing API call and its error kind, then the same details as C07. *)
+   M: index of the failing API call and its error kind, then the same details as C07.
+   Family "cont\tkind\tkeys\tk=<k>/<W>\tat=..\t<fault>" (caller keeps going after the error):
+   S = finished=no whenever the fault is consumed (Writer.cont_spec_finished), M = na. *)
 let kind_of_string (s : string) : ioerr =
   match s with
   | "other" -> IoOther
@@ -98,5 +100,12 @@ let handle (line : string) : string =
           else "finished-incomplete" in
     let f = match fe with Some (i, k) -> Printf.sprintf "fail=%d:%s" i (string_of_kind k) | None -> "fail=none" in
     "S:" ^ s ^ "\tM:" ^ f ^ "|" ^ m_common r npre total
+  | ["cont"; _kind; _keys; kw; _at; _fault] ->
+    (* "k=<k>/<w>": only the specification speaks here; the post-error builder is not modelled *)
+    (match split_on '/' (String.sub kw 2 (String.length kw - 2)) with
+     | [k; w] ->
+       let fin = cont_spec_finished (nat_of_int (int_of_string k)) (nat_of_int (int_of_string w)) in
+       "S:" ^ (if fin then "finished=yes" else "finished=no") ^ "\tM:na"
+     | _ -> "BADCASE")
   | _ -> "BADCASE"
 let () = main_loop handle
